@@ -5,7 +5,7 @@
 //!
 //!   cp /repo/Cargo.lock . && cargo build --offline && ./target/debug/repro <mode>
 //!
-//! modes: cyclic | multi | panic | spin | remove | clear | fswatch
+//! modes: cyclic | multi | panic | spin | remove | clear | owned | fswatch
 use assets_manager::{hot_reloading::EventSender, source::*, *};
 use std::io;
 use std::sync::{
@@ -156,6 +156,16 @@ fn main() {
             eprintln!("after drop: {:?} -> {:?} (ticks, 100/s)", a, reloader_cpu_ticks());
         }
         // F5 (C10): expected "inserted"; observed "edited", ReloadId(1).
+        // F7 (C10): expected "inserted"; observed "edited", ReloadId(1).
+        "owned" => {
+            let cache = AssetCache::with_source(src.clone());
+            let _ = cache.load_owned::<String>("a").unwrap();
+            let h = cache.get_or_insert::<String>("a", "inserted".to_string());
+            *src.val.lock().unwrap() = b"edited".to_vec();
+            send(OwnedDirEntry::File("a".into(), "txt".into()));
+            cache.hot_reload();
+            eprintln!("owned: value = {:?}, {:?}", *h.read(), h.last_reload_id());
+        }
         "remove" | "clear" => {
             let mut cache = AssetCache::with_source(src.clone());
             cache.load::<String>("a").unwrap();
